@@ -229,6 +229,32 @@ pub fn run(tier: &str, seed: u64) -> Report {
             format!("\"{}\"", rk), format!("{}\u{200b}", rk), format!("\u{feff}{}", rk), rk.replace('s', "\u{17f}"), rk.replace('i', "\u{131}"), rk.replace('a', "\u{430}"), rk.replace('e', "\u{435}"),
             rk.chars().rev().collect(), rk[..2].to_string(), rk[1..].to_string(), format!("{}x", rk), format!("x{}", rk),
         ];
+        // look-alikes under narrowing / bit-packing: three-character keys whose characters agree with the reserved key's
+        // modulo 2^7, 2^8 or 2^16, or whose bits spill into the neighbouring character's field when the key is packed as
+        // (a << 16 | b << 8 | c); all of them are different strings and must be accepted
+        let ch: Vec<u32> = rk.chars().map(|c| c as u32).collect();
+        let mk = |v: [u32; 3]| -> Option<String> { v.iter().map(|&x| char::from_u32(x)).collect::<Option<String>>() };
+        for i in 0..3 {
+            for add in [0x80u32, 0x100, 0x200, 0x7800, 0x10000, 0x20000, 0x100000] {
+                let mut v = [ch[0], ch[1], ch[2]];
+                v[i] += add;
+                if let Some(k) = mk(v) {
+                    vars.push(k);
+                }
+            }
+        }
+        for v in [
+            [ch[0], ch[1], ch[1] << 8 | ch[2]],
+            [ch[0], 0, ch[1] << 8 | ch[2]],
+            [ch[0], ch[0] << 8 | ch[1], ch[2]],
+            [0, ch[0] << 8 | ch[1], ch[2]],
+            [0, 0, ch[0] << 16 | ch[1] << 8 | ch[2]],
+            [ch[0], ch[1] | 0x7800, ch[2]],
+        ] {
+            if let Some(k) = mk(v) {
+                vars.push(k);
+            }
+        }
         vars.push(rk.to_string());
         for v in vars {
             for form in 0..6u8 {
@@ -343,4 +369,4 @@ pub fn replay(case: &Value) -> Report {
     r
 }
 
-pub const RULE: &str = "CustomClaim::try_from: ALL strings of length 0..=4 over the 13 letters of the reserved keys plus 'E', space and NUL (69 905 keys) x the three constructor forms (&str, (&str,T), (String,T)); ALL 18 278 lower-case ASCII strings of length 1..3; a dictionary of 75 names from neighbouring specifications (kid, wpk, typ, nonce, scope, email ...) x six forms; 23 decorated variants (case, whitespace, NUL, zero-width, homoglyphs, reversed, truncated, extended) of each of the seven keys x six forms/value types; 20 000 (thorough 2 000 000) random Unicode keys; oracle: fails with the reserved-key error iff the key is literally one of the seven, otherwise succeeds keeping key and value. Time constructors (ExpirationClaim, NotBeforeClaim, IssuedAtClaim x &str/String): 13 instants x UTC offsets -23:59..+23:59 (every 7th plus the extremes; thorough: all) x 0..9 fractional digits, 'Z' and '-00:00' forms must be accepted and kept verbatim (also read back through a built token); strings outside a deliberately broad recogniser of ISO 8601 date prefixes (optional sign + >= 4 digits) must be refused; lenient renderings and possibly-date strings are recorded without verdict. distinct_nontrivial = distinct (class, form/constructor, key or text shape) tuples";
+pub const RULE: &str = "CustomClaim::try_from: ALL strings of length 0..=4 over the 13 letters of the reserved keys plus 'E', space and NUL (69 905 keys) x the three constructor forms (&str, (&str,T), (String,T)); ALL 18 278 lower-case ASCII strings of length 1..3; a dictionary of 75 names from neighbouring specifications (kid, wpk, typ, nonce, scope, email ...) x six forms; ~50 decorated variants (case, whitespace, NUL, zero-width, homoglyphs, reversed, truncated, extended, and three-character look-alikes under narrowing to 7/8/16 bits or under (a<<16|b<<8|c) bit-packing) of each of the seven keys x six forms/value types; 20 000 (thorough 2 000 000) random Unicode keys; oracle: fails with the reserved-key error iff the key is literally one of the seven, otherwise succeeds keeping key and value. Time constructors (ExpirationClaim, NotBeforeClaim, IssuedAtClaim x &str/String): 13 instants x UTC offsets -23:59..+23:59 (every 7th plus the extremes; thorough: all) x 0..9 fractional digits, 'Z' and '-00:00' forms must be accepted and kept verbatim (also read back through a built token); strings outside a deliberately broad recogniser of ISO 8601 date prefixes (optional sign + >= 4 digits) must be refused; lenient renderings and possibly-date strings are recorded without verdict. distinct_nontrivial = distinct (class, form/constructor, key or text shape) tuples";
